@@ -12,6 +12,7 @@ import (
 type Type struct {
 	K       string     `json:"k"`                 // named, ptr, slice, array, map, chan, func, structlit, ifacelit, basic, unsafe, error
 	Decl    int        `json:"decl,omitempty"`    // named: index into Spec.Decls
+	Args    []*Type    `json:"args,omitempty"`    // named: type arguments of a generic declaration
 	Elem    *Type      `json:"elem,omitempty"`    // ptr/slice/array/map(value)/chan/func(result)
 	N       int        `json:"n,omitempty"`       // array length; chan direction 0 both, 1 send-only, 2 receive-only
 	Basic   string     `json:"basic,omitempty"`   // basic: int, string, bool, float64, ...
@@ -31,6 +32,7 @@ type Decl struct {
 	Name string `json:"name"`
 	// Form: struct, iface, alias, or "def" (type Name <Under>)
 	Form    string   `json:"form"`
+	TParams int      `json:"tparams,omitempty"` // number of type parameters (P0, P1, ... any); struct declarations only
 	Under   *Type    `json:"under,omitempty"`   // def: underlying type term; alias: target
 	Fields  []SField `json:"fields,omitempty"`  // struct
 	Methods []Method `json:"methods,omitempty"` // methods declared on this (non-interface) type
@@ -94,7 +96,15 @@ func TypeString(c typeCtx, t *Type) string {
 	switch t.K {
 	case "named":
 		d := c.decl(t.Decl)
-		return c.pkgPath(d.Pkg) + "." + d.Name
+		out := c.pkgPath(d.Pkg) + "." + d.Name
+		if len(t.Args) > 0 {
+			var as []string
+			for _, a := range t.Args {
+				as = append(as, TypeString(c, a))
+			}
+			out += "[" + strings.Join(as, ",") + "]"
+		}
+		return out
 	case "ptr":
 		return "*" + TypeString(c, t.Elem)
 	case "slice":
@@ -154,10 +164,18 @@ func GoType(c typeCtx, t *Type, from int, use func(pkg int) string) string {
 	switch t.K {
 	case "named":
 		d := c.decl(t.Decl)
-		if d.Pkg == from {
-			return d.Name
+		targs := ""
+		if len(t.Args) > 0 {
+			var as []string
+			for _, a := range t.Args {
+				as = append(as, GoType(c, a, from, use))
+			}
+			targs = "[" + strings.Join(as, ", ") + "]"
 		}
-		return use(d.Pkg) + "." + d.Name
+		if d.Pkg == from {
+			return d.Name + targs
+		}
+		return use(d.Pkg) + "." + d.Name + targs
 	case "ptr":
 		return "*" + GoType(c, t.Elem, from, use)
 	case "slice":
@@ -195,7 +213,7 @@ func GoType(c typeCtx, t *Type, from int, use func(pkg int) string) string {
 			ms = append(ms, m+"() int")
 		}
 		return "interface{ " + strings.Join(ms, "; ") + " }"
-	case "basic":
+	case "basic", "tparam":
 		return t.Basic
 	case "unsafe":
 		return use(-1) + ".Pointer"
